@@ -684,6 +684,14 @@ pub fn run_files(which: &str, tier: &str, seed: u64, model: &Model, corpus_lines
         let c = OFCase { recs, k: 2, norm: true, header: false, delim: b" ".to_vec(), threads: 8, path, container: "fa".into(), sched: "free".into() };
         run_one(&c, "many-records", &mut rep, &mut exp, &mut traces, &mut branching);
     }
+    // (2c) more than 2^16 records in one mapping / one batch (16-bit record numbers, block-wise readers)
+    {
+        let n = rng.range(65_600, 67_000) as usize;
+        let recs: Vec<Vec<u8>> = (0..n).map(|i| gen::clean_seq(&mut rng, 1 + (i % 5), gen::Flavor::Uniform)).collect();
+        let path = if rng.chance(1, 2) { "mmap".to_string() } else { format!("batch:{}", 4usize << 30) };
+        let c = OFCase { recs, k: 1, norm: true, header: true, delim: b",".to_vec(), threads: 4, path, container: "fa".into(), sched: "free".into() };
+        run_one(&c, "records-beyond-16-bits", &mut rep, &mut exp, &mut traces, &mut branching);
+    }
     // (3) the same records through every container and both writers must give identical bytes (checked against the one expectation above)
     rep.traces_validated = traces;
     rep.schedules_enumerated = n_sched;
